@@ -550,7 +550,7 @@ cdef Coefficient add_inter(InterCoefficient left, InterCoefficient right):
     if (
         left.np_arrays[0].shape == right.np_arrays[0].shape
         and np.allclose(left.np_arrays[0], right.np_arrays[0],
-                        rtol=1e-15, atol=1e-15)
+                        rtol=1e-15, atol=0)
         and (left.order == right.order)
     ):
         return InterCoefficient.restore(
